@@ -70,7 +70,7 @@ Qed.
 Lemma field_nil_idem : forall t d, field_nil t (field_nil t d) = field_nil t d.
 Proof.
   induction t; intro d; try reflexivity.
-  simpl. destruct d as [| |[x|]|l|m|fs|v]; try reflexivity. rewrite IHt. reflexivity.
+  simpl. destruct d as [| |[x|]|l|m|fs|v|dt dv]; try reflexivity. rewrite IHt. reflexivity.
 Qed.
 
 (* ---- the loops ---- *)
@@ -194,9 +194,9 @@ Proof.
   intros o c it r0 H. unfold iface_upd in *.
   destruct (o_iface_reset o) eqn:Er.
   - assert (Hn : naked it = Ok r0).
-    { destruct c as [| |p|l|m|fs|[v|]]; try exact H. destruct v; exact H. }
+    { destruct c as [| |p|l|m|fs|[v|]|dt dv]; try exact H. destruct v; exact H. }
     clear H. destruct it; simpl in Hn; try discriminate; injection Hn as <-; reflexivity.
-  - destruct c as [| |p|l|m|fs|[v|]];
+  - destruct c as [| |p|l|m|fs|[v|]|dt dv];
       try (destruct it; simpl in H; try discriminate; injection H as <-; reflexivity).
     destruct v; destruct it; simpl in H; try discriminate; injection H as <-; reflexivity.
 Qed.
@@ -247,7 +247,7 @@ Proof.
       rewrite (sarr_idem _ fs l 0 (old_struct c) ys); [reflexivity| |exact Es].
       apply Forall_forall. intros x Hx. apply field_dec_idem. apply (H x Hx (Hnd x Hx)).
     + (* interface *)
-      exfalso. unfold iface_upd in Eb. destruct c as [| |p|l0|m|fs|[v|]]; try discriminate.
+      exfalso. unfold iface_upd in Eb. destruct c as [| |p|l0|m|fs|[v|]|dt dv]; try discriminate.
       destruct v; destruct (o_iface_reset o); discriminate.
   - (* IMap *)
     rewrite refl_eqn in * by reflexivity. unfold through in *.
@@ -267,6 +267,6 @@ Proof.
       rewrite (smap_refix _ fs l ys); [reflexivity|].
       eapply smap_facts; [exact Hk| |exact Es].
       apply Forall_forall. intros kv Hin. apply field_dec_idem. apply (proj2 (H kv Hin) (Hv kv Hin)).
-    + exfalso. unfold iface_upd in Eb. destruct c as [| |p|l0|m|fs|[v|]]; try discriminate.
+    + exfalso. unfold iface_upd in Eb. destruct c as [| |p|l0|m|fs|[v|]|dt dv]; try discriminate.
       destruct v; destruct (o_iface_reset o); discriminate.
 Qed.
